@@ -14,6 +14,24 @@ P = {
  'C14': (True, 'proof', "Axiom-free theorems about the acceptance relation applied to the implementation: a triple (status-in, values, status-out) is accepted iff the values with SOME raised set form a status-free accepted pair and status-out = status-in OR raised; monotonicity, independence of the entry word, and by induction over call sequences the final word = entry OR union of per-call raised sets. Tie to the code: every flag-taking operation is run under several entry words (incl. 0 and 0x3f) and judged by the extracted relation.", 'DESIGN.md section 10 (C14)'),
  'C18': (True, 'proof', "Axiom-free theorems over all 2^128 x 2^128 patterns: the model's total_order equals a clause-by-clause transcription of IEEE 754-2008 5.10 (total_spec), is reflexive, transitive, total, antisymmetric up to 'same canonical datum', ranks non-canonical encodings as the data they denote; the chain -NaN < -Inf < ... < +NaN; total_order_mag = total_order of the sign-cleared encodings; magnitude comparison with unbounded exponent gap proved against scaled integer values (bridge to Flocq reals). Tie to the code: correspondence run on constructed pairs (cohorts, +-0, NaN payload/sign/signaling variations, non-canonical encodings).", 'DESIGN.md section 10 (C18)'),
 }
+
+CORR = " Tie to the code: bit/flag-exact correspondence run — the extracted model judges the crate rebuilt from /repo on constructed cases."
+P.update({
+ 'C02': (True, 'proof', "Theorems: for all finite patterns and modes the model's fma satisfies ieee_result for the real x*y+z (one rounding, preferred exponent min(ex+ey,ez), addition zero-sign rule); ieee_result is functional, so any other answer (e.g. the doubly rounded mul-then-add, refuted by a witness) violates it; special-value table; bit-for-bit agreement with mul (zero addend, product non-zero) and with add (y = 1); totality of the model." + CORR + " Streams aim at the alignment cases, cancellation, ex+ey below the bottom exponent and the overflow zone (products that are powers of ten just above MAX).", 'DESIGN.md section 10 (C02)'),
+ 'C03': (True, 'proof', "Theorems over all patterns: the model's 4-valued relation equals the order of the extended reals (Rcompare of Flocq F2R values; digit-count shortcut proved for unbounded exponent gaps), cohorts/zero signs/infinities/NaN as stated; each of the 20 predicates is its truth table over that relation with invalid raised exactly as stated and no other flag; operator bits equal the quiet predicates for non-NaN operands." + CORR, 'DESIGN.md section 10 (C03)'),
+ 'C04': (True, 'proof', "Theorems: a grammar of literals written independently of the lexer; lex of every well-formed literal is (sign, digits value, fraction length, exponent); parse result satisfies ieee_result for the denoted real for ANY digit count, keeps the literal's exponent when it fits, exact zero clamped without flag; special spellings in every letter case; complete classification of all byte strings (anything else is garbage -> default quiet NaN, no flag); FromStr Err iff a flag other than inexact." + CORR + " One recorded known finding (characters after a complete exponent are ignored; pinned by the suite).", 'DESIGN.md section 10 (C04)'),
+ 'C05': (True, 'proof', "Axiom-free theorems: format text has the stated shape and lexes back to exactly (sign, coefficient, 0, exponent); parse(format d) = the identical 128 bits with no flag for every well-formed finite d and all five modes; Inf/NaN/SNaN texts and their re-parse (payload not printed); Display = Debug = UpperExp, LowerExp differs in 'e' only; non-canonical patterns print as the zero they denote." + CORR + " (all 12288 exponents, every 3-digit group position; Display/Debug/LowerExp/UpperExp; re-parse under 5 modes; serde string form).", 'DESIGN.md section 10 (C05)'),
+ 'C06': (True, 'proof', "Theorems: rounding of c/10^k to an integer equals Flocq's Zfloor/Zceil/Ztrunc/ZnearestE/ZnearestA with inexact iff changed; to-integer result = that integer mod 2^w with inexact only in the signalling variants when it fits, else the indefinite value with invalid only (all patterns, 32/64 bit, signed/unsigned, 5 directions, lrint/lround instances); from-integer exact with exponent 0; to(from(n)) = n for all n and all 40 variants." + CORR + " (range edges at every digit count/scale, ties, all 44 entry points).", 'DESIGN.md section 10 (C06)'),
+ 'C07': (True, 'proof', "Theorems against Flocq's own b32_of_bits/b64_of_bits and B2R: for every f32/f64 pattern and mode the model returns the datum satisfying ieee_result for the exact binary value with preferred exponent 0, flag word = inexact (+ denormal-operand bit for subnormal inputs), never overflow/underflow; zeros/infinities keep their sign; NaN -> any canonical quiet NaN of that sign (+ invalid iff signaling); From<f32/f64> = RNE with flags discarded." + CORR, 'DESIGN.md section 10 (C07)'),
+ 'C08': (True, 'proof', "Theorems: rint results are the canonical operand unchanged (exponent >= 0), or Fin sign |rnd(x)| 0 with rnd = Flocq's integer rounding in the stated direction (sign kept for zero results), infinities as is; only round-to-integral-exact raises inexact, iff the value changed; modf = (toward-zero integral part, exact difference) with ip + fp = x, both carrying x's sign and fp x's quantum." + CORR, 'DESIGN.md section 10 (C08)'),
+ 'C09': (True, 'proof', "Theorems: quantize = Fin sx |rnd(x/10^qy)| qy with inexact iff the value changed, invalid exactly when more than 34 digits would be needed or exactly one operand is infinite, Inf/Inf -> Inf of x; every finite quantize result has the same quantum as y; quantexp/llquantexp/quantum/same_quantum read exactly the exponent field of every finite pattern (both non-canonical families), indefinite + invalid otherwise." + CORR, 'DESIGN.md section 10 (C09)'),
+ 'C10': (True, 'proof', "Theorems (integer core axiom-free, real-number corollaries via Flocq): modular exponentiation correct; remainder = x - n*y with n the nearest integer to x/y ties-to-even (uniqueness proved, = ZnearestE), fmod with n = trunc(x/y); bounds |rem| <= |y|/2, |fmod| < |y|, sign rules, exponent min(ex,ey), always representable, no flag, for exponent gaps of any size; special operands; % = remainder." + CORR + " (constructed ties in every gap class, gaps up to 12287).", 'DESIGN.md section 10 (C10)'),
+ 'C11': (True, 'proof', "Theorems: scaleb/scalebln/ldexp satisfy ieee_result for x*10^n with preferred exponent q+n for every n in Z (in-range: same coefficient; clamp: zero padding; else correctly rounded overflow/underflow), saturation of n proved harmless; logb/log_b give the adjusted exponent exactly (10^e <= |x| < 10^(e+1)) with the special results/flags; frexp fraction in [1/10,1) and fraction*10^exp = x." + CORR, 'DESIGN.md section 10 (C11)'),
+ 'C16': (True, 'proof', "Theorems: for non-NaN operands every accepted min/max outcome is one of the two operands in canonical form, chosen by the order of the extended reals (magnitudes for _mag, falling back to the signed order), no flag, both operands accepted when they compare equal; one quiet NaN -> the other operand; two quiet NaNs / any sNaN per the NaN rule." + CORR, 'DESIGN.md section 10 (C16)'),
+ 'C17': (True, 'proof', "Theorems with Flocq's succ/pred: next_up(x) = succ x in the least-exponent representation (or +Inf exactly when x = MAX), next_down = pred, specials, next_down(next_up x) = x in value, no format value strictly between; next_after/next_toward direction by the comparison, flags overflow+inexact iff finite -> Inf, underflow+inexact iff result subnormal or zero." + CORR, 'DESIGN.md section 10 (C17)'),
+ 'C19': (True, 'proof', "Axiom-free theorems: declet codec = IEEE tables 3.3/3.4 (two independent transcriptions agree on all 1000/1024 entries; exactly 24 redundant declets, decoded as the standard says); dpd_decode(dpd_encode d) = d for every well-formed datum, encode(decode w) = w for every canonical DPD word, field layout per 3.5.2; both conversions total, one outcome, no flag, for all 2^128 inputs." + CORR + " (every declet value in each of the 11 positions, leading digits 0-9, NaN payloads, non-canonical inputs).", 'DESIGN.md section 10 (C19)'),
+ 'C20': (True, 'proof', "Axiom-free theorems: the equality of the model is an equivalence over all patterns (NaNs one class, NaN never equals a number, numerically equal iff keys equal); operator bits mutually consistent (<= iff partial_cmp Less or Equal, ...), partial_cmp antisymmetric and transitive; acceptance of hash inputs iff equal values feed equal words. The Hasher (SipHash) and the hash collections themselves are std, not modelled." + CORR + " Hash inputs are observed with a recording Hasher; HashSet/HashMap lookups under equal keys are executed.", 'DESIGN.md section 10 (C20)'),
+})
 UNDER = "check under construction in this session (framework is being built property by property); will be claimed when its theorems are merged and its correspondence stream is clean"
 for i in range(1, 21):
     k = 'C%02d' % i
